@@ -425,6 +425,22 @@ func hammer(r *vh.Run, kind kit.Kind, iters int) {
 			}
 		}(w)
 	}
+	// one goroutine keeps RE-registering the stable entries with the same tag: replacement must be atomic, a
+	// call or list in between must never find them absent
+	wg.Add(1)
+	go func() {
+		defer wg.Done()
+		for {
+			select {
+			case <-stop:
+				return
+			default:
+			}
+			g.register(op{Reg: "tools", Name: "stable", Tag: "s"})
+			g.register(op{Reg: "prompts", Name: "stable", Tag: "s"})
+			g.register(op{Reg: "resources", Name: "res://stable", Tag: "s"})
+		}
+	}()
 	var cw sync.WaitGroup
 	for w := 0; w < 6; w++ {
 		cw.Add(1)
@@ -443,8 +459,19 @@ func hammer(r *vh.Run, kind kit.Kind, iters int) {
 					if res.Err != "" || !res.OK || res.Tag != "s" {
 						r.Violation(fmt.Sprintf("C12|%s|%s|hammer|stable-entry-call-failed", kind, rg), fmt.Sprintf("%s: a call to an entry registered throughout failed or returned another handler's value: %+v", kind, res), nil)
 					}
-					cl.do(op{Reg: rg, Kind: "list"})
-					cl.do(op{Reg: rg, Kind: "call", Name: "never-registered"})
+					lres := cl.do(op{Reg: rg, Kind: "list"})
+					found := false
+					for _, it := range lres.Items {
+						if it == st+"=s" {
+							found = true
+						}
+					}
+					if lres.Err == "" && !found {
+						r.Violation(fmt.Sprintf("C12|%s|%s|hammer|stable-entry-missing-from-list", kind, rg), fmt.Sprintf("%s: a %s list does not show an entry that is registered throughout (it is only ever re-registered)", kind, rg), nil)
+					}
+					if nres := cl.do(op{Reg: rg, Kind: "call", Name: "never-registered"}); nres.Err == "" && nres.OK {
+						r.Violation(fmt.Sprintf("C12|%s|%s|hammer|never-registered-entry-served", kind, rg), fmt.Sprintf("%s: a call to a never-registered %s entry succeeded", kind, rg), nil)
+					}
 				}
 				cl.hp.Do(context.Background(), "POST", g.url, map[string]string{"Content-Type": "application/json", "Accept": "application/json", "Mcp-Session-Id": cl.sid}, []byte(`{"jsonrpc":"2.0","method":"notifications/h-0-1"}`))
 			}
